@@ -68,6 +68,12 @@ def parseActs? (s : String) : Option (List Action) :=
     | ["W", k] => do
       let k ← k.toNat?
       if k ≤ 2 then pure rest else none
+    -- `O.<k>.<v>`: a dotted-path `Set` (`o0.x` / `o1.x` / `o0.y.z`, harness/src/bin/c02.rs) on facts no condition reads: it
+    -- cannot fail (`set_nested`, else the flat key) and touches neither the integer fields nor the agenda — skipped like `W`
+    | ["O", k, v] => do
+      let k ← k.toNat?
+      let _ ← v.toInt?
+      if k ≤ 2 then pure rest else none
     | _ => do
       let x ← parseAct? a
       pure (x :: rest)) (some [])
@@ -140,6 +146,35 @@ def parseCall? (s : String) : Option Call :=
   else if s.startsWith "Y" then ((rest.splitOn ".").mapM String.toNat?).map .workflow
   else (parseOp? s).map .op
 
+/-- a case op: a public call of the engine, or one of the CALLER's undo-frame calls on the `Facts` handed to `execute`
+(`Ub` begin_undo_frame / `Uc` commit_undo_frame / `Ur` rollback_undo_frame, src/engine/facts.rs) -/
+inductive WCall where
+  | call (c : Call)
+  | frameBegin
+  | frameCommit
+  | frameRollback
+deriving Repr
+
+def parseWCall? (s : String) : Option WCall :=
+  if s = "Ub" then some .frameBegin
+  else if s = "Uc" then some .frameCommit
+  else if s = "Ur" then some .frameRollback
+  else (parseCall? s).map .call
+
+/-- `Facts` undo frames as the caller of `execute` sees them: every write of the engine goes through `Facts::set` /
+`Facts::set_nested`, both of which record the previous value of the key in the innermost open frame (once per key), and
+`commit_undo_frame` merges the entries into the enclosing frame (first recorded value wins) — so `rollback_undo_frame` restores
+the store to what it was at the matching `begin_undo_frame`. The frame stack is therefore a stack of stores; commit / rollback
+with no frame open do nothing. Returns the new (facts, frames). -/
+def frameStep (facts : List (Nat × Int)) (frames : List (List (Nat × Int))) : WCall → List (Nat × Int) × List (List (Nat × Int))
+  | .call _ => (facts, frames)
+  | .frameBegin => (facts, facts :: frames)
+  | .frameCommit => (facts, frames.drop 1)
+  | .frameRollback =>
+    match frames with
+    | snap :: rest => (snap, rest)
+    | [] => (facts, [])
+
 /-- facts token: `-` | v,v,… with `_` for an absent field -/
 def parseFacts? (s : String) : Option (List (Option Int)) :=
   if s = "-" then some [] else (s.splitOn ",").mapM (fun x => if x = "_" then some none else x.toInt?.map some)
@@ -152,7 +187,7 @@ structure Case where
   nf : Nat
   facts : List (Nat × Int)
   rules : List Rule
-  ops : List Call
+  ops : List WCall
 
 def parseCase? (line : String) : Option Case :=
   match tokens line with
@@ -161,7 +196,7 @@ def parseCase? (line : String) : Option Case :=
     let m ← if m = "d" then some defaultMaxCycles else m.toNat?
     let f ← parseFacts? f
     let rs ← if rs = "-" then some [] else (rs.splitOn ";").mapM parseRule?
-    let os ← if os = "-" then some [] else (os.splitOn ";").mapM parseCall?
+    let os ← if os = "-" then some [] else (os.splitOn ";").mapM parseWCall?
     pure { maxc := m, nf := f.length, facts := factsOf f, rules := rs, ops := os }
   | _ => none
 
@@ -207,12 +242,16 @@ def cresEvents : CRes → List Ev
 
 /-- the model's observation line -/
 def modelObs (c : Case) (st : St) : String :=
-  let rec go (st : St) : List Call → List String
+  let rec go (st : St) (frames : List (List (Nat × Int))) : List WCall → List String
     | [] => []
-    | op :: ops =>
+    | .call op :: ops =>
       let s := callStep c.maxc nowT st op
-      s!"{showCRes s.2}/{showEvents (cresEvents s.2)}/{s.1.agenda.active}/{showFacts c.nf s.1.facts}" :: go s.1 ops
-  let l := go st c.ops
+      s!"{showCRes s.2}/{showEvents (cresEvents s.2)}/{s.1.agenda.active}/{showFacts c.nf s.1.facts}" :: go s.1 frames ops
+    | w :: ops =>
+      let f := frameStep st.facts frames w
+      let st' := { st with facts := f.1 }
+      s!"u/-/{st'.agenda.active}/{showFacts c.nf st'.facts}" :: go st' f.2 ops
+  let l := go st [] c.ops
   if l.isEmpty then "-" else ";".intercalate l
 
 /-! ### observations of the implementation -/
